@@ -243,7 +243,13 @@ def _unpack_stack(scope, only_errors=True):
 
 
 def _format_trace_value(value, maxlen):
-    s = bbrepr(value).replace("\\'", "'")
+    try:
+        s = bbrepr(value)
+    except RecursionError:
+        # (a container that contains itself, or one nested hundreds of levels
+        # deep: reprlib has no cycle check, the builtin repr has)
+        s = repr(value)
+    s = s.replace("\\'", "'")
     if len(s) > maxlen:
         try:
             suffix = '... (len=%s)' % len(value)
